@@ -8,6 +8,9 @@
 //     w <hex>           send one record without snapshot and without flushing (bulk filling)
 //     R <L> <N> <opts>  destroy the sink and create a new one on the same path
 //     Q <level> <hex>   print hex(qCompress(bytes, level))   (Qt's framing of the zlib stream)
+//     C <dirA> <dirB>   two threads, released together by a barrier, each construct its own RotatingFileSink on
+//                       <dirX>/app.log (pre-written by the caller) with RotationOnStartup|Compression, send "z" and
+//                       destroy it: two independent sinks compressing at the same time.  Answer "C".
 //     P                 print hex(QString(U+00E9 U+20AC).toLocal8Bit())  (which codec is in force)
 //   answers: one line per command: "W <new rotated name | ->", "R", "Q <hex>", "P <hex>".
 // Snapshots go to <dir>.exp/<rotated name without .gz>.
@@ -21,6 +24,8 @@
 #include <QSet>
 #include <clocale>
 #include <iostream>
+#include <atomic>
+#include <thread>
 #include <memory>
 #include <string>
 using namespace QtLogger;
@@ -77,6 +82,21 @@ int main(int argc, char **argv)
             QList<QByteArray> a = QByteArray(line.c_str() + 1).trimmed().split(' ');
             QByteArray raw = QByteArray::fromHex(a.value(1));
             std::cout << "Q " << qCompress(raw, a.value(0).toInt()).toHex().constData() << std::endl;
+        } else if (op == 'C') {
+            QList<QByteArray> a = QByteArray(line.c_str() + 1).trimmed().split(' ');
+            std::atomic<int> ready{0};
+            auto work = [&ready](QString d) {
+                QMessageLogContext c("f.cpp", 1, "void f()", "cat");
+                ready.fetch_add(1);
+                while (ready.load() < 2) { }
+                RotatingFileSink s(d + "/app.log", 0, 0, RotatingFileSink::Options(5));
+                LogMessage m(QtInfoMsg, c, QStringLiteral("z"));
+                s.send(m);
+                s.flush();
+            };
+            std::thread t1(work, QString::fromLocal8Bit(a.value(0))), t2(work, QString::fromLocal8Bit(a.value(1)));
+            t1.join(); t2.join();
+            std::cout << "C" << std::endl;
         } else if (op == 'P') {
             QString s; s += QChar(0xE9); s += QChar(0x20AC);
             std::cout << "P " << s.toLocal8Bit().toHex().constData() << std::endl;
